@@ -29,7 +29,9 @@ CRIT_MORE = [2047, 2048, 2049, 4095, 4096, 4097]
 PARITY = {"png": "topdown", "npy": "topdown", "fits": "bottomup"}
 # lossless format x mode combinations (what the format can hold)
 MODE_FORMATS = [("RGB", "png"), ("RGBA", "png"), ("RGB", "npy"), ("RGBA", "npy"), ("F32", "npy"), ("F64", "npy"),
-                ("U8", "npy"), ("I16", "npy"), ("F32", "fits"), ("F64", "fits"), ("U8", "fits"), ("I16", "fits")]
+                ("U8", "npy"), ("I16", "npy"), ("F32", "fits"), ("F64", "fits"), ("U8", "fits"), ("I16", "fits"), ("F16x3", "npy")]
+# modes that can carry undefined pixels inside the image
+HOLE_MODE_FORMATS = [("F16x3", "npy"), ("F32", "npy"), ("F32", "fits"), ("F64", "npy"), ("F64", "fits"), ("RGBA", "png"), ("RGBA", "npy")]
 
 IMG_CFG = """SPECIFICATION SpecImage
 CONSTANTS
@@ -298,23 +300,47 @@ def geometry_chunk(pairs):
     return out
 
 
-def sub_chunk(cases):
-    """Pool worker: sub-image tilings (W, H, ix, iy, sw, sh)."""
+def sub_chunk(groups):
+    """Pool worker: histories on ONE StudyTiling object per parent size (behaviours full -> sub -> full -> sub ... of
+    SpecImage): the first sub-image is derived from the untouched parent; then the parent itself is asked for its count,
+    rectangles and slots, further sub-images are derived from the same (now used) object one after another, the parent
+    is re-examined in between and at the end.  Every observation is compared with TLC's tables.
+    groups: [((W, H), [(W, H, ix, iy, sw, sh), ...])]"""
     repo.setup()
     from toasty.study import StudyTiling
     out = []
-    for (W, H, ix, iy, sw, sh) in cases:
+    for (W, H), cases in groups:
         prow = T.pair[(W, H)]
         p2, lev = prow[0], prow[1]
-        ax, ay = T.subaxis[(p2, W, ix, sw)], T.subaxis[(p2, H, iy, sh)]
-        row = (p2, lev, ax[0], ay[0], ax[1] * ay[1])
-        case = {"W": W, "H": H, "ix": ix, "iy": iy, "sw": sw, "sh": sh}
+        pax, pay = T.axis[(p2, W)], T.axis[(p2, H)]
         try:
-            st = StudyTiling(W, H).compute_for_subimage(ix, iy, sw, sh)
+            parent = StudyTiling(W, H)
         except Exception as e:  # noqa
-            out.append(("V", "subimage:raises", "compute_for_subimage%s on %dx%d raised %r" % ((ix, iy, sw, sh), W, H, e), case))
+            out.append(("V", "study:raises", "StudyTiling(%d, %d) raised %r" % (W, H, e), {"w": W, "h": H}))
             continue
-        out.extend(compare_geometry("subimage", case, st, sw, sh, row, ax[2], ay[2]))
+
+        def look_at_parent(when):
+            pc = {"W": W, "H": H, "history": when}
+            out.extend(compare_geometry("study", pc, parent, W, H, prow, pax[2], pay[2]))
+        prev = None
+        for i, (_W, _H, ix, iy, sw, sh) in enumerate(cases):
+            if i == 1:
+                look_at_parent("after deriving sub-image %s" % (prev,))
+            ax, ay = T.subaxis[(p2, W, ix, sw)], T.subaxis[(p2, H, iy, sh)]
+            row = (p2, lev, ax[0], ay[0], ax[1] * ay[1])
+            case = {"W": W, "H": H, "ix": ix, "iy": iy, "sw": sw, "sh": sh,
+                    "history": "untouched parent" if i == 0 else "parent asked for count/rectangles, %d sub-images derived before" % i}
+            try:
+                st = parent.compute_for_subimage(ix, iy, sw, sh)
+            except Exception as e:  # noqa
+                out.append(("V", "subimage:raises", "compute_for_subimage%s on %dx%d raised %r" % ((ix, iy, sw, sh), W, H, e), case))
+                continue
+            out.extend(compare_geometry("subimage", case, st, sw, sh, row, ax[2], ay[2]))
+            if i % 7 == 6:
+                out.extend(compare_geometry("subimage", dict(case, history=case["history"] + "; looked at twice"), st, sw, sh, row, ax[2], ay[2]))
+                look_at_parent("between sub-images")
+            prev = (ix, iy, sw, sh)
+        look_at_parent("after %d sub-images" % len(cases))
     return out
 
 
@@ -541,8 +567,8 @@ def reassembly_case(args):
     import shutil
     import tempfile
     import numpy as np
-    kind, mode, fmt, dims, seed, scratch, flavour = args
-    case = {"path": kind, "mode": mode, "format": fmt, "dims": list(dims), "seed": seed, "image_format": flavour}
+    kind, mode, fmt, dims, seed, scratch, flavour, holes = args
+    case = {"path": kind, "mode": mode, "format": fmt, "dims": list(dims), "seed": seed, "image_format": flavour, "holes": holes}
     res = []
     d = tempfile.mkdtemp(prefix="c08-", dir=scratch)
     sink = io.StringIO()
@@ -556,12 +582,12 @@ def reassembly_case(args):
             p2, lev = prow[0], prow[1]
             gx0 = T.subaxis[(p2, W, ix, sw)][0]
             gy0 = T.subaxis[(p2, H, iy, sh)][0]
-            parent = make_image(mode, W, H, seed)
+            parent = make_image(mode, W, H, seed, holes=(prow[2], prow[3]) if holes else None)
             img = np.ascontiguousarray(parent[iy:iy + sh, ix:ix + sw])
         else:
             w, h = dims
             p2, lev, gx0, gy0, _cnt = T.pair[(w, h)]
-            img = make_image(mode, w, h, seed)
+            img = make_image(mode, w, h, seed, holes=(gx0, gy0) if holes else None)
         out = os.path.join(d, "out")
         with contextlib.redirect_stdout(sink), contextlib.redirect_stderr(sink):
             try:
@@ -575,8 +601,26 @@ def reassembly_case(args):
                     olev = lev
                 elif kind == "sub":
                     pio = PyramidIO(out, default_format=fmt)
-                    st = StudyTiling(W, H).compute_for_subimage(ix, iy, sw, sh)
+                    ptiling = StudyTiling(W, H)
+                    if seed % 2 == 0:
+                        # history: the parent object tiles the whole parent image first (this also asks it for its
+                        # count and rectangles), then the sub-image tiling is derived from the same object
+                        pout = os.path.join(d, "parent")
+                        ppio = PyramidIO(pout, default_format=fmt)
+                        ptiling.tile_image(_mkimage(parent.copy(), flavour, d), ppio)
+                        pm, pu, pp = reassemble(pout, ppio.get_path_scheme() + "." + fmt, lev, fmt, mode)
+                        res.extend(judge_mosaic("reassembly:lib", dict(case, history="parent image tiled on the object that later derives the sub-image"),
+                                                pm, pu, pp, parent, prow[2], prow[3], mode))
+                    st = ptiling.compute_for_subimage(ix, iy, sw, sh)
                     st.tile_image(source, pio)
+                    n_sub, n_rects = st.count_populated_positions(), len(list(st.generate_populated_positions()))
+                    n_tlc = T.subaxis[(p2, W, ix, sw)][1] * T.subaxis[(p2, H, iy, sh)][1]
+                    if not (n_sub == n_rects == n_tlc):
+                        res.append(("V", "subimage:count", "sub-tiling of %s reports count %d, generates %d rectangles, closed form %d"
+                                    % (case, n_sub, n_rects, n_tlc), case))
+                    if ptiling.count_populated_positions() != prow[4]:
+                        res.append(("V", "study:count", "after deriving a sub-image the parent of %s reports count %d, closed form %d"
+                                    % (case, ptiling.count_populated_positions(), prow[4]), case))
                     template = pio.get_path_scheme() + "." + fmt
                     olev = lev
                 elif kind == "builder":
@@ -656,7 +700,7 @@ def run(ctx):
     sizes_q = [(1, 1), (256, 256), (257, 255), (255, 257), (300, 513), (513, 2), (1025, 258)]
     sizes_t = sizes_q + [(512, 512), (511, 1024), (2, 1025), (1023, 1), (514, 513), (1100, 700), (256, 257)]
     sizes = sizes_q if quick else sizes_t
-    extra = sorted(set(sizes))
+    extra = sorted(set(sizes) | {(512, 512), (700, 600), (300, 513), (1025, 258), (768, 1024), (257, 255)})
     full2d = [(w, h) for w in crit for h in crit]
     big_l = [4095, 4096, 4097, 8191, 8193, 16385, 20000, 32769, 65537]
     big = [(a, b) for a in big_l for b in (1, 300, 1025)] + [(b, a) for a in big_l for b in (1, 300, 1025)]
@@ -750,9 +794,18 @@ def run(ctx):
     all_sub_cases = sub_cases
     if only is not None:
         pairs = [p for p in pairs if only.get("w") == p[0] and only.get("h") == p[1] and "path" not in only]
-        sub_cases = [q for q in sub_cases if "path" not in only and [only.get(k) for k in ("W", "H", "ix", "iy", "sw", "sh")] == list(q)]
+        # a sub-image case is replayed with the whole history on its parent size
+        sub_cases = [q for q in sub_cases if "path" not in only and "ix" in only and (only.get("W"), only.get("H")) == q[:2]]
+        if "history" in only and "ix" not in only and "W" in only:
+            sub_cases = [q for q in all_sub_cases if (only["W"], only["H"]) == q[:2]]
     chunks = [pairs[i::48] for i in range(48)]
-    schunks = [sub_cases[i::24] for i in range(24)]
+    sgroups = {}
+    for q in sub_cases:
+        sgroups.setdefault(q[:2], []).append(q)
+    for k in sgroups:                                     # a seeded order of derivation per parent
+        rng.shuffle(sgroups[k])
+    sgl = sorted(sgroups.items())
+    schunks = [sgl[i::24] for i in range(24)]
     nviol = [0]
 
     perkey = {}
@@ -789,17 +842,17 @@ def run(ctx):
         for (mode, fmt) in MODE_FORMATS + ([("I32", "npy"), ("I32", "fits")] if not quick else []):
             for k, dims in enumerate(sizes):
                 kind = "builder" if (k % 3 == 2) else "lib"
-                cases.append((kind, mode, fmt, dims, seed + len(cases), ctx.scratch, fmt))
+                cases.append((kind, mode, fmt, dims, seed + len(cases), ctx.scratch, fmt, False))
         for (mode, fmt, dims) in [("RGB", "png", (300, 513)), ("RGBA", "png", (257, 255)), ("F32", "npy", (513, 2)),
                                   ("F64", "fits", (300, 513)), ("F32", "fits", (255, 257)), ("I16", "fits", (256, 256))]:
-            cases.append(("cli", mode, fmt, dims, seed + len(cases), ctx.scratch, "file:" + fmt))
+            cases.append(("cli", mode, fmt, dims, seed + len(cases), ctx.scratch, "file:" + fmt, False))
         # sub-images placed inside a larger tiling
         subpool = [q for q in all_sub_cases if q[0] >= 255 and q[1] >= 255 and q[4] * q[5] > 1]
         nsub = 36 if quick else 400
         for k in range(nsub):
             q = subpool[rng.randrange(len(subpool))]
             mode, fmt = MODE_FORMATS[k % len(MODE_FORMATS)]
-            cases.append(("sub", mode, fmt, q, seed + len(cases), ctx.scratch, fmt))
+            cases.append(("sub", mode, fmt, q, seed + len(cases), ctx.scratch, fmt, False))
         # the image's own default format is independent of the pyramid's format (Python API): every image flavour the
         # mode allows x every pyramid format that can hold the mode; the tiles' parity is the PYRAMID format's
         xsizes = [(257, 255), (300, 513), (513, 2)] if quick else [(257, 255), (300, 513), (513, 2), (255, 257), (1025, 258), (256, 256)]
@@ -813,20 +866,33 @@ def run(ctx):
                     continue                                   # the library never produces these
                 if not colour and flavour in ("png", "file:png"):
                     continue
+                if mode == "F16x3" and flavour in ("fits", "file:fits"):
+                    continue                                   # FITS has no half-float type
                 for rep_ in range(1 if quick else 3):
                     dims = xsizes[nx % len(xsizes)]
                     kind = ("lib", "builder", "sub")[nx % 3]
                     nx += 1
                     if kind == "sub":
                         dims = subpool[rng.randrange(len(subpool))]
-                    cases.append((kind, mode, fmt, dims, seed + len(cases), ctx.scratch, flavour))
+                    cases.append((kind, mode, fmt, dims, seed + len(cases), ctx.scratch, flavour, False))
+        # images with undefined regions covering whole tiles, partial tiles, single planes (float modes, RGBA)
+        hsizes = [(512, 512), (700, 600), (300, 513)] if quick else [(512, 512), (700, 600), (300, 513), (1025, 258), (768, 1024), (257, 255)]
+        bigsubs = [q for q in subpool if q[4] >= 400 and q[5] >= 400] or subpool
+        for (mode, fmt) in HOLE_MODE_FORMATS:
+            for k, dims in enumerate(hsizes):
+                kind = "builder" if (k % 3 == 1) else "lib"
+                cases.append((kind, mode, fmt, dims, seed + len(cases), ctx.scratch, fmt, True))
+            for rep_ in range(2 if quick else 8):
+                q = bigsubs[rng.randrange(len(bigsubs))]
+                cases.append(("sub", mode, fmt, q, seed + len(cases), ctx.scratch, fmt, True))
         if only is not None:
-            cases = [c for c in cases if "path" in only and [c[0], c[1], c[2], list(c[3]), c[4], c[6]] ==
-                     [only["path"], only["mode"], only["format"], list(only["dims"]), only["seed"], only.get("image_format", c[2])]]
+            cases = [c for c in cases if "path" in only and [c[0], c[1], c[2], list(c[3]), c[4], c[6], c[7]] ==
+                     [only["path"], only["mode"], only["format"], list(only["dims"]), only["seed"], only.get("image_format", c[2]),
+                      bool(only.get("holes", False))]]
         for (res, case) in pool.imap(reassembly_case, cases, chunksize=2):
             ctx.count()
             ctx.trace_ok()
-            ctx.distinct(("io", case["path"], case["mode"], case["format"], case["image_format"]) + tuple(case["dims"]))
+            ctx.distinct(("io", case["path"], case["mode"], case["format"], case["image_format"], case["holes"]) + tuple(case["dims"]))
             report(res, None)
     ctx.note("reassembly_cases", len(cases))
     if nviol[0]:
